@@ -27,6 +27,7 @@ func init() { runners["C12"] = runC12 }
 // Cases of a known class (the engine violates path independence there; the model predicts exactly how) are reported
 // under that class; the class suppresses O1 only, and only when KNOWN_FINDINGS.txt lists it.
 func runC12(cases string, res *Result) {
+	c12Relibrary(res)
 	firstKnown := map[string]*Finding{}
 	knownSize := map[string]int{}
 	readCases(cases, func(c Case) {
@@ -249,6 +250,89 @@ func c12CheckDeclTokens(c Case, res *Result) {
 				res.add(Finding{Kind: "disagreement", Where: "c12-decl/tokenize", Case: c, Expected: "a macro tag", Observed: "none found", Detail: name})
 			}
 			twig.ReleaseTokenizer(tk)
+		}
+	}
+}
+
+// c12Relibrary: the call forms agree at every render, also when what a library offers changed since the last one:
+// a library that hands on macros of another library which is registered again, a library whose definitions stand
+// under a condition on a global that is changed, a library registered again itself. Every form must give what a
+// freshly built engine with the same templates and globals gives.
+func c12Relibrary(res *Result) {
+	const page = "{% import 'forms' as f %}{% from 'forms' import field %}{% from 'forms' import field as g %}A:{{ f.field('x') }}|B:{{ field('x') }}|C:{{ g('x') }}|D:{{ f.own('y') }}"
+	type world struct {
+		base, forms string
+		compact     interface{}
+	}
+	worlds := []world{
+		{"{% macro field(n, t = 'text') %}<1 {{ n }} {{ t }}>{% endmacro %}", "{% from 'base' import field %}{% macro own(z) %}[own {{ z }}]{% endmacro %}", nil},
+		{"{% macro field(n, t = 'mail') %}<2 {{ n }}/{{ t }}>{% endmacro %}", "{% from 'base' import field %}{% macro own(z) %}[own {{ z }}]{% endmacro %}", nil},
+		{"{% macro field(n, t = 'mail') %}<2 {{ n }}/{{ t }}>{% endmacro %}", "{% from 'base' import field %}{% macro own(z, w = 'W') %}[own2 {{ z }}{{ w }}]{% endmacro %}", nil},
+		{"{% macro field(n) %}<3 {{ n }}>{% endmacro %}", "{% if compact %}{% macro field(n) %}<c {{ n }}>{% endmacro %}{% else %}{% macro field(n) %}<w {{ n }}>{% endmacro %}{% endif %}{% macro own(z) %}[own {{ z }}]{% endmacro %}", true},
+		{"{% macro field(n) %}<3 {{ n }}>{% endmacro %}", "{% if compact %}{% macro field(n) %}<c {{ n }}>{% endmacro %}{% else %}{% macro field(n) %}<w {{ n }}>{% endmacro %}{% endif %}{% macro own(z) %}[own {{ z }}]{% endmacro %}", false},
+		{"{% macro field(n, t = 'text') %}<1 {{ n }} {{ t }}>{% endmacro %}", "{% from 'base' import field %}{% macro own(z) %}[own {{ z }}]{% endmacro %}", nil},
+	}
+	apply := func(e *twig.Engine, w world, prev *world) error {
+		if prev == nil || prev.base != w.base {
+			if err := e.RegisterString("base", w.base); err != nil {
+				return err
+			}
+		}
+		if prev == nil || prev.forms != w.forms {
+			if err := e.RegisterString("forms", w.forms); err != nil {
+				return err
+			}
+		}
+		if w.compact != nil {
+			e.AddGlobal("compact", w.compact)
+		}
+		return nil
+	}
+	render := func(e *twig.Engine) string {
+		out, err := e.Render("page", map[string]interface{}{})
+		if err != nil {
+			return "error: " + err.Error()
+		}
+		return out
+	}
+	shared := twig.New()
+	if err := shared.RegisterString("page", page); err != nil {
+		res.Notes = append(res.Notes, "c12-relibrary: page does not parse: "+err.Error())
+		return
+	}
+	var prev *world
+	for i := range worlds {
+		w := worlds[i]
+		res.Hist["stream:c12-relibrary"]++
+		res.Evaluations++
+		c := Case{"stream": "c12-relibrary", "step": i, "base": w.base, "forms": w.forms, "compact": w.compact, "page": page}
+		fresh := twig.New()
+		fresh.RegisterString("page", page)
+		if err := apply(fresh, w, nil); err != nil {
+			res.Hist["c12-relibrary: world does not parse"]++
+			continue
+		}
+		if err := apply(shared, w, prev); err != nil {
+			continue
+		}
+		prev = &worlds[i]
+		want := render(fresh)
+		for again := 0; again < 2; again++ {
+			if got := render(shared); got != want {
+				res.add(Finding{Kind: "oracle", Where: fmt.Sprintf("c12-relibrary/step %d", i), Case: c, Expected: want, Observed: got,
+					Detail: "an engine whose libraries changed since its last render and a freshly built engine with the same templates and globals disagree (A import-as, B from, C from-as, D the library's own macro)"})
+				return
+			}
+		}
+		// the forms of one macro agree with each other
+		parts := strings.Split(want, "|")
+		if len(parts) == 4 && !strings.HasPrefix(want, "error") {
+			a, b, cc := strings.TrimPrefix(parts[0], "A:"), strings.TrimPrefix(parts[1], "B:"), strings.TrimPrefix(parts[2], "C:")
+			if a != b || b != cc {
+				res.add(Finding{Kind: "oracle", Where: fmt.Sprintf("c12-relibrary/step %d/forms", i), Case: c, Expected: "one output for the three forms", Observed: want,
+					Detail: "import-as, from and from-as give different output for one macro on a freshly built engine"})
+				return
+			}
 		}
 	}
 }
